@@ -43,6 +43,7 @@ type Thread struct {
 type Options struct {
 	MaxSteps       int  // scheduling steps before the execution is cut (0 = 200000)
 	NoAtomicPoints bool // atomics are not scheduling points (coarser, never unsound for failures found)
+	PoolPoints     bool // sync.Pool Get/Put are scheduling points too (finer: a thread can be preempted between looking an object up and using it)
 	Trace          bool // record a human readable trace
 	StopOnFail     bool // end the execution at the first Failf
 	Start          time.Time
@@ -168,9 +169,9 @@ func spawn(f func()) {
 }
 
 // Go0..Go4 replace `go f(args...)` in instrumented code.
-func Go0(f func())                                  { spawn(f) }
-func Go1[A any](f func(A), a A)                     { spawn(func() { f(a) }) }
-func Go2[A, B any](f func(A, B), a A, b B)          { spawn(func() { f(a, b) }) }
+func Go0(f func())                                    { spawn(f) }
+func Go1[A any](f func(A), a A)                       { spawn(func() { f(a) }) }
+func Go2[A, B any](f func(A, B), a A, b B)            { spawn(func() { f(a, b) }) }
 func Go3[A, B, C any](f func(A, B, C), a A, b B, c C) { spawn(func() { f(a, b, c) }) }
 func Go4[A, B, C, D any](f func(A, B, C, D), a A, b B, c C, d D) {
 	spawn(func() { f(a, b, c, d) })
@@ -360,6 +361,14 @@ func Point(label string) {
 // PointAtomic is the scheduling point placed before atomic operations.
 func PointAtomic(label string) {
 	if S == nil || !S.running || S.Opt.NoAtomicPoints {
+		return
+	}
+	S.yield(&op{label: label})
+}
+
+// PointPool is the (opt-in) scheduling point placed before sync.Pool operations.
+func PointPool(label string) {
+	if S == nil || !S.running || !S.Opt.PoolPoints {
 		return
 	}
 	S.yield(&op{label: label})
